@@ -54,7 +54,29 @@ def ed_corpus(tier, seed):
     return out
 
 
-VALUES = (5, -5, 0, 3, 2.5, -0.5, 0.001, True, False, None, "mnist", "a b", "[1, 2]", "(1, 2)", "foo(1, 2)", "x_y",
+def _cf_eq(a, b):
+    return a.casefold() == b.casefold()
+
+
+def lw_corpus(tier, seed):
+    """location_within on small strings (all strings over {a,B,' '} up to length 4 x token tuples), cmp in {==, casefold-==}"""
+    import operator
+
+    out = []
+    alphabet = "aB "
+    conts = [""]
+    for n in range(1, 5):
+        conts += ["".join(t) for t in itertools.product(alphabet, repeat=n)]
+    toks = [("a",), ("ab",), ("b ", "a"), ("aB", "b"), ("a b", " b", "b"), ("B", "ab", "a ", "  ")]
+    for c in conts:
+        for tk in toks:
+            out.append({"container": c, "iterable": tk, "cmp": _cf_eq})
+            if tier == "thorough":
+                out.append({"container": c, "iterable": tk, "cmp": operator.eq})
+    return out
+
+
+VALUES = (5, -5, 0, 3, 2.5, -0.5, 0.001, True, False, None, "mnist", "", "a b", "[1, 2]", "(1, 2)", "foo(1, 2)", "x_y",
           "a.b", "```np.ones(3)```", "```(np.empty(0), np.empty(0))```")
 TYPES = (None, "str", "int", "float", "bool", "Optional[str]", "List[int]", "Union[int, str]")
 
@@ -161,7 +183,8 @@ def check(run, record_expected=False):
     distinct = set()
     samples = []
     ghostless = 0
-    corpora = {"doctrans.defaults_utils:extract_default": ed_corpus(run.tier, run.seed)}
+    corpora = {"doctrans.defaults_utils:extract_default": ed_corpus(run.tier, run.seed),
+               "doctrans.pure_utils:location_within": lw_corpus(run.tier, run.seed)}
     for key, corpus in corpora.items():
         for rec in contract_rt.run_corpus(key, corpus):
             if rec["case"] is None:
